@@ -656,6 +656,13 @@ class SourceGenerator(NodeVisitor):
                 self.write(", ")
             self.visit(item)
 
+    def visit_NamedExpr(self, node):
+        self.write("(")
+        self.visit(node.target)
+        self.write(" := ")
+        self.visit(node.value)
+        self.write(")")
+
     def visit_Yield(self, node):
         self.write("yield ")
         self.visit(node.value)
